@@ -1,5 +1,6 @@
 import FlVerif.Op.IsReady
 import FlVerif.Lemmas.Ready
+import FlVerif.Lemmas.CodeReady
 
 /-! # C19 — an engine reported ready can be processed
 
@@ -12,6 +13,16 @@ Engines, blocks, rules and outputs are arbitrary lists – no bound on their num
 
 namespace C19
 open Op.Ready
+
+/-- **Tie A (code → model).**  `Gen.Code.Engine_is_ready` is regenerated from the source of `Engine.is_ready` on every
+    run (`fv/pylean.py`; an attribute the check reads is the field of the abstract configuration, every
+    `errors.append(f"…")` is the constructor of `Err` for that message, a component is named by its position).
+    For every configuration and every list passed in (`none` = no list): the call succeeds, it appends exactly the
+    errors of the model `isReady` in the same order, and it returns "the list is empty". -/
+theorem code_isReady (e : Engine) (errors0 : Option (List Err)) :
+    ∃ σ, Gen.Code.Engine_is_ready.run e errors0 {} = .ok σ ∧ σ.errors = errors0.getD [] ++ isReady e ∧
+      σ.ret = some (errors0.getD [] ++ isReady e).isEmpty :=
+  Op.Ready.code_isReady e errors0
 
 /-- **Soundness.**  If the readiness check reports no error, every rule block has an activation method and the
     operators of the loaded rules are visible in their text (tokens separated by single blanks), then
